@@ -19,9 +19,11 @@ LPROF = {"keys": ["p", "q", "r"], "strs": ["u", "w"], "nulls": False, "width": 2
 
 def gen_case(rng):
     kind = rng.pick(["merge_map", "merge_map", "replace_map", "merge_str", "replace_str", "merge_list", "replace_list", "chain", "dangling",
-                     "nested_ref", "nested_ref"])
+                     "nested_ref", "nested_ref", "list_combo", "list_combo"])
     if kind == "nested_ref":
         return gen_nested_ref(rng)
+    if kind == "list_combo":
+        return gen_list_combo(rng)
     cross = rng.chance(1, 3)
     tkeys = rng.pick([["tgt"], ["t", "sub"], ["a.b"], ["t", "x.y"], ["tpl", "inner"]])
     can_dot = all("." not in k for k in tkeys)
@@ -106,6 +108,35 @@ def gen_case(rng):
                 d[hkey] = inl
         meta["inlined"] = docs2
     c.append(meta)
+    return c
+
+
+def gen_list_combo(rng):
+    """lists that combine list-level $merge and $replace entries, and reference entries that arrive through a merged-in list"""
+    k = rng.below(6)
+    bar = [rng.pick([9, "b", {"z": 1}])]
+    doc = {"bar": bar, "lst": [7, 8], "tpl": {"$output": False, "foo": [2, {"$replace": "bar"}], "plain": [3, 4]}}
+    if k == 0:
+        doc["zig"] = [1, {"$merge": "tpl.foo"}]                       # a $replace entry arrives through the merged list
+    elif k == 1:
+        doc["zig"] = [1, {"$merge": rng.pick(["nope.nothing", "lst", "tpl.plain"])}, {"$replace": "bar"}]
+    elif k == 2:
+        doc["zig"] = [{"$replace": "bar"}, {"$merge": "lst"}, 5]
+    elif k == 3:
+        doc["zig"] = [{"$merge": "lst"}, {"$merge": "tpl.plain"}, 0]
+    elif k == 4:
+        doc["zig"] = [1, {"$merge": "lst"}, {"$replace": None}, {"$replace": "bar"}]
+    else:
+        doc["tpl"]["foo"] = [2, {"$merge": "lst"}]
+        doc["zig"] = [1, {"$merge": "tpl.foo"}]                       # a $merge entry arrives through the merged list
+    if rng.chance(1, 4):
+        other = {"kind": "tpl", "foo": doc["tpl"]["foo"], "bar": ["other"]}
+        doc["zig2"] = [0, {"$merge": [{"kind": "tpl"}, "foo"]}]
+        docs = rng.pick([[doc, other], [other, doc]])
+    else:
+        docs = [doc]
+    c = ["history", None, hist.stream_history(docs)]
+    c.append({"kind": "list_combo", "cross": len(docs) > 1})
     return c
 
 
